@@ -102,7 +102,7 @@ def item_tags(it):
     tags = set()
     if it.kind == 'insn':
         ops = list(it.ops.values())
-        if it.mn in TRANSFER_INSN and any(isinstance(o, ir.Off) for o in ops):
+        if it.mn in TRANSFER_INSN and any(isinstance(o, ir.Off) for o in ops):   # (ir.OffC is an ir.Off)
             tags.add('transfer_target')
         elif any(getattr(o, 'label_dep', False) for o in ops):
             tags.add('label_value')
